@@ -463,17 +463,25 @@ func ruleP07Renumber(p *Prog, r *Report) {
 		return
 	}
 	var set ssa.CallInstruction
+	var setAt vinstr
 	n := 0
-	eachInstr(parse, func(in ssa.Instruction) {
-		if c, ok := in.(ssa.CallInstruction); ok && c.Common().IsInvoke() && c.Common().Method.Name() == "SetPrecedingLineCount" {
-			set = c
+	for _, vi := range virtualInstrs(parse) {
+		if c, ok := vi.in.(ssa.CallInstruction); ok && c.Common().IsInvoke() && c.Common().Method.Name() == "SetPrecedingLineCount" {
+			set, setAt = c, vi
 			n++
 		}
-	})
+	}
 	if n != 1 {
 		r.bad(rule, "renumber", p.pos(parse.Pos()), "the merged blocks are not renumbered exactly once (found %d SetPrecedingLineCount calls)", n)
 		return
 	}
+	// the loop may live in a helper that receives the merged blocks: its parameters then stand
+	// for the arguments of that one call
+	setAt.run(func() { ruleP07RenumberAt(p, r, parse, set) })
+}
+
+func ruleP07RenumberAt(p *Prog, r *Report, parse *ssa.Function, set ssa.CallInstruction) {
+	const rule = "P07-renumber"
 	coll := rangeElemOf(set.Common().Value)
 	only, _ := onlyLoopGuards(set.Block())
 	r.check(coll != nil && only, rule, "every-block", p.instrPos(set), "every merged block is renumbered", "not every merged block is renumbered")
@@ -528,7 +536,7 @@ func ruleP07Renumber(p *Prog, r *Report) {
 	// dominates both returns: the loop's exit dominates every return
 	var header *ssa.BasicBlock
 	if isPhi {
-		header = acc.Block()
+		header = blockIn(parse, acc)
 	}
 	for i, ret := range returnsOf(parse) {
 		okDom := header != nil && header.Dominates(ret.Block()) && !reachableFrom(ret.Block(), nil)[header]
@@ -833,41 +841,28 @@ func ruleP07EngineSelect(p *Prog, r *Report) {
 	if !r.anchorFn(rule, nsp, "parser.NewSerialParser") || !r.anchorFn(rule, npp, "parser.NewParallelParser") {
 		return
 	}
-	sp := p.global("klog/parser", "serialParser")
-	// serial: returns the global; parallel: SerialParser field = the same global
-	okS := false
+	// Both engines are built on a SerialParser value whose ParseOne is parser.parse — wherever
+	// that value comes from (a package-level variable, a literal, a constructor helper).
+	parse := p.fn("klog/parser", "parse")
+	okS := len(returnsOf(nsp)) > 0
 	for _, ret := range returnsOf(nsp) {
-		if u, ok := strip(retResult(ret, 0)).(*ssa.UnOp); ok && u.Op == token.MUL && u.X == ssa.Value(sp) {
-			okS = true
+		if g := p.parseOneOf(retResult(ret, 0)); g == nil || g != parse {
+			okS = false
 		}
 	}
-	okP := false
+	okP, nP := true, 0
 	eachInstr(npp, func(in ssa.Instruction) {
 		if st, ok := in.(*ssa.Store); ok {
 			if fa, ok := st.Addr.(*ssa.FieldAddr); ok && fieldName(fa) == "SerialParser" {
-				if u, ok := strip(st.Val).(*ssa.UnOp); ok && u.Op == token.MUL && u.X == ssa.Value(sp) {
-					okP = true
+				nP++
+				if g := p.parseOneOf(st.Val); g == nil || g != parse {
+					okP = false
 				}
 			}
 		}
 	})
-	r.check(sp != nil && okS && okP, "P07-same-parseone", "engines", p.pos(npp.Pos()), "both engines are built from the same serial parser value (one ParseOne)", "the two engines do not share one serial parser / ParseOne")
-	// the ParseOne stored in the global is parser.parse
-	okParseOne := false
-	if sp != nil {
-		if init := p.ssaPkg("klog/parser").Func("init"); init != nil {
-			eachInstr(init, func(in ssa.Instruction) {
-				if st, ok := in.(*ssa.Store); ok {
-					if fa, ok := st.Addr.(*ssa.FieldAddr); ok && fa.X == ssa.Value(sp) && fieldName(fa) == "ParseOne" {
-						if fn, ok := strip(st.Val).(*ssa.Function); ok && fn == p.fn("klog/parser", "parse") {
-							okParseOne = true
-						}
-					}
-				}
-			})
-		}
-	}
-	r.check(okParseOne, "P07-same-parseone", "parse-one", p.pos(nsp.Pos()), "ParseOne is parser.parse", "the serial parser's ParseOne is not parser.parse")
+	r.check(parse != nil && okS && okP && nP == 1, "P07-same-parseone", "engines", p.pos(npp.Pos()), "both engines are built on a serial parser whose ParseOne is parser.parse", "the two engines do not share one ParseOne (parser.parse)")
+	r.check(parse != nil && okS, "P07-same-parseone", "parse-one", p.pos(nsp.Pos()), "ParseOne is parser.parse", "the serial parser's ParseOne is not parser.parse")
 	// worker count: stored as given; every call site proves n >= 1
 	eachInstr(npp, func(in ssa.Instruction) {
 		if st, ok := in.(*ssa.Store); ok {
@@ -934,4 +929,71 @@ func sameCallShape(a, b ssa.Value) bool {
 		return false
 	}
 	return true
+}
+
+// parseOneOf: the function stored in the ParseOne field of the SerialParser value v, which is a
+// load of a package-level variable (initialised once, never written again) or of a local literal,
+// possibly behind a constructor helper.
+func (p *Prog) parseOneOf(v ssa.Value) *ssa.Function {
+	u, ok := strip(v).(*ssa.UnOp)
+	if !ok || u.Op != token.MUL {
+		return nil
+	}
+	var where []*ssa.Function
+	switch base := u.X.(type) {
+	case *ssa.Global:
+		if base.Pkg == nil {
+			return nil
+		}
+		init := base.Pkg.Func("init")
+		for _, f := range p.srcFns {
+			if f == init {
+				continue
+			}
+			written := false
+			eachInstr(f, func(in ssa.Instruction) {
+				if st, isS := in.(*ssa.Store); isS {
+					if st.Addr == ssa.Value(base) {
+						written = true
+					}
+					if fa, isF := st.Addr.(*ssa.FieldAddr); isF && fa.X == ssa.Value(base) {
+						written = true
+					}
+				}
+			})
+			if written {
+				return nil
+			}
+		}
+		if init != nil {
+			where = []*ssa.Function{init}
+		}
+	case *ssa.Alloc:
+		where = []*ssa.Function{base.Parent()}
+	default:
+		return nil
+	}
+	var found *ssa.Function
+	n := 0
+	for _, f := range where {
+		eachInstr(f, func(in ssa.Instruction) {
+			st, isS := in.(*ssa.Store)
+			if !isS {
+				return
+			}
+			if st.Addr == u.X {
+				n += 2 // the whole value is overwritten
+			}
+			if fa, isF := st.Addr.(*ssa.FieldAddr); isF && fa.X == u.X && fieldName(fa) == "ParseOne" {
+				n++
+				if fn, isFn := plainDeref(st.Val).(*ssa.Function); isFn {
+					found = boundTarget(fn)
+				}
+			}
+		})
+	}
+	if n != 1 {
+		return nil
+	}
+	return found
 }
